@@ -187,7 +187,7 @@ def register(api):
             raise E("struct SnapTunServer not found")
         sbody = srv[ms.end():srv.index("}", ms.end())]
         pub_fns = ["field:" + f for f in re.findall(r"\bpub(?:\([^)]*\))?\s+(\w+)\s*:", sbody)]
-        impl_re = re.compile(r"((?:#\[[^\]]*\]\s*)*)\bimpl\s*(?:<[^{]*?>)?\s*(?:([\w:]+(?:<[^{]*?>)?)\s+for\s+)?SnapTunServer\s*<[^{]*?>\s*\{")
+        impl_re = re.compile(r"((?:#\[[^\]]*\]\s*)*)\bimpl\s*(?:<[^{]*?>)?\s*(?:([\w:]+(?:<[^{]*?>)?)\s+for\s+)?SnapTunServer\s*<[^{]*?>\s*(?:where\b[^{]*)?\{")
         n_impl = 0
         for mi in impl_re.finditer(srv):
             n_impl += 1
